@@ -118,6 +118,7 @@ func c18RacePhase(dir, id, tier string, seed uint64, knownPath string, agg *aggr
 	nproc := runtime.NumCPU()
 	per := (total + nproc - 1) / nproc
 	type outcome struct {
+		hung  bool
 		raced bool
 		run   int
 		log   string
@@ -154,6 +155,12 @@ func c18RacePhase(dir, id, tier string, seed uint64, knownPath string, agg *aggr
 					outs[w] = outcome{raced: true, run: run, log: readRaceLogs(logp)}
 					return
 				}
+				if hb, herr := os.ReadFile(out + ".hang"); herr == nil {
+					// the watchdog named a run that does not end
+					n, _ := strconv.Atoi(strings.TrimSpace(string(hb)))
+					outs[w] = outcome{hung: true, run: n}
+					return
+				}
 				msg := string(b)
 				if len(msg) > 3000 {
 					msg = msg[len(msg)-3000:]
@@ -173,6 +180,19 @@ func c18RacePhase(dir, id, tier string, seed uint64, knownPath string, agg *aggr
 	wg.Wait()
 	ran := 0
 	var first *outcome
+	for i := range outs {
+		if o := &outs[i]; o.hung {
+			// concurrent calls that never return: confirmed by executing the
+			// run alone (same build, same environment, 30 s watchdog)
+			v := hangViolation(raceBin, dir, id, tier, seed, o.run, knownPath, raceEnv(filepath.Join(dir, "race-hang-confirm")))
+			if v == nil {
+				fmt.Fprintf(os.Stderr, "verif: race phase: watchdog tripped in run %d but the hang did not reproduce in isolation (no verdict)\n", o.run)
+				os.Exit(2)
+			}
+			v.Detail = "race build: " + v.Detail
+			return notes, v
+		}
+	}
 	for i := range outs {
 		o := &outs[i]
 		if o.fail != "" {
